@@ -720,7 +720,13 @@ pub fn do_attack(scratch: &mut Scratch, a: &Value) -> Value {
             }
         }
         "mount" => match do_mount(&scratch.dir, &s("target"), &s("kind"), &s("src")) {
-            Ok(()) => 0,
+            Ok(()) => {
+                if let Some(st) = crate::tree::lstat(Path::new(&s("target"))) {
+                    ev["src_dev"] = json!(st.st_dev);
+                    ev["src_ino"] = json!(st.st_ino);
+                }
+                0
+            }
             Err(e) => -(e as i64),
         },
         "umount" => do_umount(&s("target")) as i64,
